@@ -4,6 +4,7 @@ package main
 // merging at joins, loops cut at their headers by invariants.
 
 import (
+	"crypto/sha1"
 	"fmt"
 	"go/constant"
 	"go/token"
@@ -240,8 +241,10 @@ func (ex *Exec) oblige(fr *Frame, kind, label string, pos token.Pos, pc, goal *T
 		o.Pos = fmt.Sprintf("%s:%d", p.Filename, p.Line)
 	}
 	ex.obls = append(ex.obls, o)
-	// once checked, the goal may be assumed
-	ex.assume(pc, goal)
+	// once checked, the goal may be assumed (post-conditions are independent of each other: not assumed)
+	if kind != "post" {
+		ex.assume(pc, goal)
+	}
 }
 
 func (ex *Exec) recordTrivial(fr *Frame, kind, label string, pos token.Pos, props []string) {
@@ -253,7 +256,8 @@ func (ex *Exec) recordTrivial(fr *Frame, kind, label string, pos token.Pos, prop
 func (ex *Exec) oblName(fr *Frame, kind, label string) string {
 	label = strings.Join(strings.Fields(label), " ")
 	if len(label) > 90 {
-		label = label[:90]
+		h := sha1.Sum([]byte(label))
+		label = fmt.Sprintf("%s~%x", label[:80], h[:3])
 	}
 	if fr.label != "" {
 		label = fr.label + ">" + label
